@@ -183,11 +183,35 @@ namespace pika::concurrency::detail {
             pika::concurrency::detail::get_cache_line_size() - sizeof(anchor);    //-V103
         char padding[padding_size];
 
+        // The link CAS in stabilize_left/right is protected from the ABA problem
+        // only by the tag of the link, so the tags of a node's links must never
+        // restart while another thread may still hold a value read from them:
+        // they have to survive the recycling of the node through the freelist
+        // (same idiom as the node constructor of boost::lockfree::queue). Memory
+        // handed out by the freelist is either zero-initialized or a former node
+        // whose first word was rewritten with tagged_ptr::set_ptr, which keeps
+        // the tag bits.
+        static void recycle_tags(node* chunk, tag_t& ltag, tag_t& rtag)
+        {
+            ltag = static_cast<tag_t>(
+                ltag + chunk->left.load(std::memory_order_relaxed).get_next_tag());
+            rtag = static_cast<tag_t>(
+                rtag + chunk->right.load(std::memory_order_relaxed).get_next_tag());
+        }
+
+        // Tagged pointer to be stored in a link of a node that is not yet
+        // published: keeps the link's tag moving forward.
+        static node_pointer next_link(atomic_node_pointer const& link, node* target)
+        {
+            return node_pointer(target, link.load(std::memory_order_relaxed).get_next_tag());
+        }
+
         node* alloc_node(node* lptr, node* rptr, T const& v, tag_t ltag = 0, tag_t rtag = 0)
         {
             PIKA_VERIF_POINT("dq.pt", this, 7, 0);
             node* chunk = pool_.allocate();
             if (chunk == nullptr) { throw std::bad_alloc(); }
+            recycle_tags(chunk, ltag, rtag);
             new (chunk) node(lptr, rptr, v, ltag, rtag);
             PIKA_VERIF_POST("dq.alloc", this, reinterpret_cast<std::uintptr_t>(chunk), 0);
             return chunk;
@@ -198,6 +222,7 @@ namespace pika::concurrency::detail {
             PIKA_VERIF_POINT("dq.pt", this, 7, 0);
             node* chunk = pool_.allocate();
             if (chunk == nullptr) { throw std::bad_alloc(); }
+            recycle_tags(chunk, ltag, rtag);
             new (chunk) node(lptr, rptr, std::move(v), ltag, rtag);
             PIKA_VERIF_POST("dq.alloc", this, reinterpret_cast<std::uintptr_t>(chunk), 0);
             return chunk;
@@ -380,7 +405,7 @@ namespace pika::concurrency::detail {
                     // Make the right pointer on our new node refer to the current
                     // leftmost node.
                     PIKA_VERIF_POINT("dq.pt", this, 6, 0);
-                    n->right.store(node_pointer(lrs.get_left_ptr()));
+                    n->right.store(next_link(n->right, lrs.get_left_ptr()));
                     PIKA_VERIF_POST("dq.link", this, reinterpret_cast<std::uintptr_t>(n), reinterpret_cast<std::uintptr_t>(lrs.get_left_ptr()));
 
                     // Now we want to make the anchor point to our new node as the
@@ -446,7 +471,7 @@ namespace pika::concurrency::detail {
                     // Make the left pointer on our new node refer to the current
                     // rightmost node.
                     PIKA_VERIF_POINT("dq.pt", this, 6, 0);
-                    n->left.store(node_pointer(lrs.get_right_ptr()));
+                    n->left.store(next_link(n->left, lrs.get_right_ptr()));
                     PIKA_VERIF_POST("dq.link", this, reinterpret_cast<std::uintptr_t>(n), reinterpret_cast<std::uintptr_t>(lrs.get_right_ptr()));
 
                     // Now we want to make the anchor point to our new node as the
